@@ -84,7 +84,7 @@ def install_contract(pydrex, ctx, state, window=None):
 
 
 def gen_cases(ctx):
-    n_hist = ctx.share(ctx.scale(140, 4000))
+    n_hist = ctx.share(ctx.scale(140, 4000)) // (3 if ctx.mode == "bounds" else 1)
     for i in range(n_hist):
         rng = ctx.rng(1, i)
         r = rng.random()
@@ -157,8 +157,11 @@ def check_case(ctx, case):
         ctx.case(case, nontrivial=True)
     except Exception as e:
         ctx.case(case, nontrivial=False)
-        ctx.check("update_does_not_raise", False, case, key=f"raises/{type(e).__name__}",
-                  exc=f"{type(e).__name__}: {str(e)[:200]}", regime=regime)
+        if drive.solver_gave_up(case, e):
+            ctx.count("solver_gave_up_under_user_tolerances")
+        else:
+            ctx.check("update_does_not_raise", False, case, key=f"raises/{type(e).__name__}",
+                      exc=f"{type(e).__name__}: {str(e)[:200]}", regime=regime)
     finally:
         mon.deriv_hook = None
     if len(ctx.samples) < 3:
